@@ -4,6 +4,7 @@ use crate::big::Big;
 use crate::ops::*;
 use crate::world::*;
 use margined_perp::margined_engine as eng;
+use margined_perp::margined_insurance_fund as ins;
 use margined_perp::margined_vamm as vm;
 use serde_json::json;
 use std::collections::BTreeMap;
@@ -260,6 +261,24 @@ impl Monitor for C03 {
                 format!("total {} -> {} supply {:?} -> {:?} moved {:?}", pre.total(), post.total(), pre.supply, post.supply, moved),
                 st.seq,
             );
+        }
+        // R4: the insurance fund, the vAMMs and the price feed have no top-level entry point that moves collateral (the
+        // fund pays the engine only, inside an engine transaction). A transaction sent to one of them directly must
+        // leave every balance alone - otherwise collateral leaves the set {traders, liquidators, engine, fund, fee pool}.
+        if matches!(st.op, Op::Insurance { .. } | Op::Vamm { .. } | Op::Feed { .. }) {
+            r.count("direct-calls-to-fund-vamm-feed");
+            if matches!(st.op, Op::Insurance { msg: ins::ExecuteMsg::Withdraw { .. }, .. }) {
+                r.count("direct-insurance-withdraw-attempts");
+            }
+            if !moved.is_empty() {
+                r.violation(
+                    "C03",
+                    "R4-collateral-moved-by-a-direct-call",
+                    format!("R4|{}|{}", st.op.kind(), moved.iter().map(|(k, dl)| format!("{}{}", role_of(w, k), if *dl > 0 { "+" } else { "-" })).collect::<Vec<_>>().join(",")),
+                    format!("{} sent by {:?} moved collateral: {:?}", st.op.kind(), st.op.sender(), moved),
+                    st.seq,
+                );
+            }
         }
         if let Some((sender, msg, _)) = engine_msg(&st.op) {
             let allowed = [sender.to_string(), w.engine.to_string(), w.insurance.to_string(), st.pre.eng.fee_pool.clone()];
